@@ -655,6 +655,9 @@ func (g *valGen) val(ts *TypeSpec, depth int) Val {
 			return out
 		}
 		n := g.count()
+		if depth > 40 {
+			n = 0 // recursion through containers of structs held by value ends here (C01: within the depth bound)
+		}
 		out := Val{L: make([]Val, 0, n)}
 		for i := 0; i < n && g.budget > 0; i++ {
 			out.L = append(out.L, g.val(ts.Elem, depth+1))
@@ -680,6 +683,9 @@ func (g *valGen) val(ts *TypeSpec, depth int) Val {
 			return out
 		}
 		n := g.count()
+		if depth > 40 {
+			n = 0
+		}
 		out := Val{M: make([]KV, 0, n)}
 		nilKey := false
 		// keys that repeat are drawn again: the map has n entries whenever the key type has that many
